@@ -473,9 +473,23 @@ func (c16) Exec(c *core.Case) (out *core.Outcome) {
 		}
 	case "settings":
 		const b = "set16"
-		mustOK(own().Do(s3c.CreateBucket(b, KV{K: "X-Amz-Object-Ownership", V: "BucketOwnerPreferred"}, KV{K: "X-Amz-Bucket-Object-Lock-Enabled", V: "true"})), "create settings bucket")
 		current := map[string]string{"versioning": "Enabled", "ownershipControls": "BucketOwnerPreferred"}
 		has := map[string]bool{"versioning": true, "ownershipControls": true}
+		chdr := []KV{{K: "X-Amz-Object-Ownership", V: "BucketOwnerPreferred"}, {K: "X-Amz-Bucket-Object-Lock-Enabled", V: "true"}}
+		if len(p.Steps) > 0 && p.Steps[0].Doc%3 == 0 {
+			// the first setting is written by the creating request itself: a grant header
+			perm := []string{"read", "write", "read-acp", "full-control"}[p.Steps[0].Doc/3%4]
+			chdr = append(chdr, KV{K: "x-amz-grant-" + perm, V: "grantee16"}) // the gateway's dialect: a list of account names, not id="..."
+			cr := own().Do(s3c.CreateBucket(b, chdr...))
+			if cr.Resp.Status >= 400 && cr.Resp.Status < 500 && cr.Resp.ErrCode() != "NotImplemented" {
+				o.Violate("settings", "C16/settings/acl/valid-document-refused", "CreateBucket with x-amz-grant-%s: grantee16 (an existing account) -> %d %s", perm, cr.Resp.Status, cr.Resp.ErrCode())
+				return o
+			}
+			mustOK(cr, "create settings bucket with a grant header")
+			current["acl"], has["acl"] = "grantee16:"+strings.ToUpper(strings.ReplaceAll(perm, "-", "_")), true
+		} else {
+			mustOK(own().Do(s3c.CreateBucket(b, chdr...)), "create settings bucket")
+		}
 		for i, st := range p.Steps {
 			if len(o.Violations) > 0 {
 				break
